@@ -201,7 +201,8 @@ func (u *uploader) createReport(start time.Time, expiryDate string, countFiles [
 			// does the uploadConfig want this program?
 			// if so, copy over the Stacks and Counters
 			// that the uploadConfig mentions.
-			if !cfg.HasGoVersion(p.GoVersion) || !cfg.HasProgram(p.Program) || !cfg.HasVersion(p.Program, p.Version) {
+			if !cfg.HasGOOS(p.GOOS) || !cfg.HasGOARCH(p.GOARCH) ||
+				!cfg.HasGoVersion(p.GoVersion) || !cfg.HasProgram(p.Program) || !cfg.HasVersion(p.Program, p.Version) {
 				continue
 			}
 			x := &telemetry.ProgramReport{
